@@ -8,7 +8,7 @@
 From Coq Require Import ZArith List Bool.
 From GV.Gen Require Import Configs.
 From GV.Model Require Import Check.
-From GV.Lemmas Require Import GridL RandL TransL C14L C13W C14W.
+From GV.Lemmas Require Import GridL RandL TransL C14L C13W C14W C13M C14M.
 Import ListNotations.
 Open Scope Z_scope.
 
@@ -37,6 +37,19 @@ Theorem C14_empty_winnable : forall h w ra re own own' r, 4 <= h -> 4 <= w -> Le
     length acts = length path /\ Forall (fun a => is_move a = true) acts /\
     trace [TMoveAgent; TTurnAgent] own' s acts = Ret (map (set_pos s) path).
 Proof. exact empty_winnable. Qed.
+
+(* GENERAL (no bound): every initial state of `memory` -- every shape (height >= 5, odd width >= 5), every colour set, every random outcome --
+   is winnable: move actions of the real dynamics walk the agent, over floor cells only and never through the other exit, to the exit that
+   carries the colour of the two beacons *)
+Theorem C14_memory_winnable : forall h w cs own own' r, 5 <= h -> 5 <= w -> w mod 2 = 1 -> NoDup cs -> ~ In 0 cs -> (2 <= length cs)%nat ->
+  Leaf (reset_memory h w cs own) r ->
+  exists s pe cg cb pw acts path, r = Ok s /\
+    lookupH (sgrid s) pe = Exit cg /\ lookupH (sgrid s) pw = Exit cb /\ cg <> cb /\
+    lookupH (sgrid s) (h - 2, 1) = Beacon cg /\ lookupH (sgrid s) (h - 2, w - 2) = Beacon cg /\
+    walk (walkable (sgrid s) (is_ty ty_Exit) pe) (spos s) path /\ last path (spos s) = pe /\
+    length acts = length path /\ Forall (fun a => is_move a = true) acts /\
+    trace [TMoveAgent; TTurnAgent] own' s acts = Ret (map (set_pos s) path).
+Proof. exact memory_winnable. Qed.
 
 (* complete outcome trees: every initial state of these parameter sets is winnable by walking *)
 Definition walk_only_enumerable : list rparams :=
